@@ -86,6 +86,7 @@ From BWP Require Import Run_proofs Merge_proofs Compose_proofs.
 From Coq Require Import Permutation.
 From BW Require Import Main.
 From BWP Require Import Main_proofs MainCompose_proofs.
+From BWP Require Import Keys2_proofs.
 (* The printed per-file report is a permutation of all validators' diagnostics with one entry per file ... *)
 Theorem C11_report_is_union_of_validators : forall o ctx vs,
   let arrivals := map (fun v => group_by_file (vr_diags (run_validator o ctx v))) vs in
@@ -154,3 +155,18 @@ Theorem C11_process_no_partial_report : forall a p ms tb cd,
   exists v, main_model a ms tb cd = MRun v /\ vr_diags v = [].
 Proof. exact main_run_no_diags_on_failure. Qed.
 Print Assumptions C11_process_no_partial_report.
+
+(* Any other severity text (no letter-case variant of the four words) is an error, never a default. *)
+Theorem C11_severity_unknown_rejected : forall a s, get_attr (T "severity") a = Some s ->
+  eq_ignore_ascii_case s (T "error") = false ->
+  eq_ignore_ascii_case s (T "warning") = false ->
+  eq_ignore_ascii_case s (T "info") = false ->
+  eq_ignore_ascii_case s (T "hint") = false ->
+  sev_of a = Err E_SEVERITY.
+Proof. exact sev_unknown. Qed.
+Print Assumptions C11_severity_unknown_rejected.
+
+(* Severity resolution has no other outcome: a level in 1..4 or the severity error. *)
+Theorem C11_severity_total a : (exists s, sev_of a = Ok s /\ 1 <= s <= 4) \/ sev_of a = Err E_SEVERITY.
+Proof. exact (sev_of_outcomes a). Qed.
+Print Assumptions C11_severity_total.
